@@ -218,6 +218,7 @@ class Consumer:
         self.prev = None              # (token) if valid & ~ready in the previous cycle
         self.w = Writer()
         self.check_hold = check_hold
+        self.hold_key = None          # callable(token, beat index) -> the part of the token the hold rule is demanded of
         self.valid_cycles = 0
 
     def signals(self):
@@ -231,7 +232,8 @@ class Consumer:
         if self.check_hold and self.prev is not None:
             if not valid:
                 self.hold_violations.append((t - 1, "valid withdrawn before ready"))
-            elif tok != self.prev:
+            elif (tok != self.prev if self.hold_key is None else
+                  self.hold_key(tok, len(self.got)) != self.hold_key(self.prev, len(self.got))):
                 self.hold_violations.append((t - 1, "token changed while stalled: %r -> %r" % (self.prev, tok)))
         self.prev = None
         if valid:
